@@ -112,8 +112,8 @@ theorem unquote_plain (body : Bytes) (hb : body.all plainByte = true) : unquote 
 /-! ## scalars -/
 
 theorem scanScalar_str (body rest : Bytes) (hb : body.all plainByte = true) :
-    scanScalar (34 :: body ++ 34 :: rest) = .ok (.str body, rest) := by
-  simp only [List.cons_append, scanScalar, scanString_plain body rest [] hb, List.reverse_nil, List.nil_append,
+    scanScalar (34 :: (body ++ 34 :: rest)) = .ok (.str body, rest) := by
+  simp only [scanScalar, scanString_plain body rest [] hb, List.reverse_nil, List.nil_append,
     unquote_plain body hb]
 
 theorem scanScalar_num (ds r : Bytes) (h : Canon ds) (hr : stopsNumber r = true) :
@@ -161,17 +161,15 @@ theorem tokenF_comma (f : Nat) (t : Bytes) (stk : List TState) :
 /-- a string where a member key is expected -/
 theorem tokenF_key (f : Nat) (body rest : Bytes) (st : TState) (stk : List TState)
     (hst : st = .objectStart ∨ st = .objectKey) (hb : body.all plainByte = true) :
-    tokenF (f + 1) ⟨34 :: body ++ 34 :: rest, st, stk⟩ = .ok (.str body, ⟨rest, .objectColon, stk⟩) := by
+    tokenF (f + 1) ⟨34 :: (body ++ 34 :: rest), st, stk⟩ = .ok (.str body, ⟨rest, .objectColon, stk⟩) := by
   have h := scanScalar_str body rest hb
-  simp only [List.cons_append] at h
   rcases hst with rfl | rfl <;> simp [tokenF, skipSpace, isSpace, h]
 
 /-- a string where a value is expected -/
 theorem tokenF_str (f : Nat) (body rest : Bytes) (st : TState) (stk : List TState)
     (hst : valueAllowed st = true) (hb : body.all plainByte = true) :
-    tokenF (f + 1) ⟨34 :: body ++ 34 :: rest, st, stk⟩ = .ok (.str body, ⟨rest, valueEnd st, stk⟩) := by
+    tokenF (f + 1) ⟨34 :: (body ++ 34 :: rest), st, stk⟩ = .ok (.str body, ⟨rest, valueEnd st, stk⟩) := by
   have h := scanScalar_str body rest hb
-  simp only [List.cons_append] at h
   cases st <;> simp [valueAllowed] at hst <;> simp [tokenF, skipSpace, isSpace, h, valueAllowed]
 
 /-- a canonical number where a value is expected -/
@@ -190,5 +188,44 @@ theorem tokenF_num (f : Nat) (ds rest : Bytes) (st : TState) (stk : List TState)
     simp only [beq_eq_false_iff_ne]; omega
   obtain ⟨h1, h2, h3, h4, h5, h6, h7⟩ := this
   simp [h1, h2, h3, h4, h5, h6, h7, hs]
+
+/-! ## `Dec.token` / `Dec.more` with the decoder's own fuel -/
+
+theorem token_open (t : Bytes) (st : TState) (stk : List TState) (h : valueAllowed st = true) :
+    (⟨123 :: t, st, stk⟩ : Dec).token = .ok (.delim 123, ⟨t, .objectStart, st :: stk⟩) :=
+  tokenF_open _ t st stk h
+
+theorem token_close (t : Bytes) (p : TState) (ps : List TState) :
+    (⟨125 :: t, .objectComma, p :: ps⟩ : Dec).token = .ok (.delim 125, ⟨t, valueEnd p, ps⟩) :=
+  tokenF_close _ t p ps
+
+theorem token_key (body rest : Bytes) (stk : List TState) (hb : body.all plainByte = true) :
+    (⟨34 :: (body ++ 34 :: rest), .objectStart, stk⟩ : Dec).token = .ok (.str body, ⟨rest, .objectColon, stk⟩) :=
+  tokenF_key _ body rest _ stk (Or.inl rfl) hb
+
+theorem token_comma_key (body rest : Bytes) (stk : List TState) (hb : body.all plainByte = true) :
+    (⟨44 :: 34 :: (body ++ 34 :: rest), .objectComma, stk⟩ : Dec).token = .ok (.str body, ⟨rest, .objectColon, stk⟩) := by
+  unfold Dec.token
+  simp only [List.length_cons]
+  rw [tokenF_comma]
+  exact tokenF_key _ body rest _ stk (Or.inr rfl) hb
+
+theorem token_colon_num (ds rest : Bytes) (stk : List TState) (h : Canon ds) (hr : stopsNumber rest = true) :
+    (⟨58 :: (ds ++ rest), .objectColon, stk⟩ : Dec).token = .ok (.num ds, ⟨rest, .objectComma, stk⟩) := by
+  unfold Dec.token
+  simp only [List.length_cons]
+  rw [tokenF_colon]
+  exact tokenF_num _ ds rest _ stk rfl h hr
+
+theorem token_colon_str (body rest : Bytes) (stk : List TState) (hb : body.all plainByte = true) :
+    (⟨58 :: 34 :: (body ++ 34 :: rest), .objectColon, stk⟩ : Dec).token = .ok (.str body, ⟨rest, .objectComma, stk⟩) := by
+  unfold Dec.token
+  simp only [List.length_cons]
+  rw [tokenF_colon]
+  exact tokenF_str _ body rest _ stk rfl hb
+
+theorem more_cons (c : Nat) (t : Bytes) (st : TState) (stk : List TState) (h : isSpace c = false) :
+    (⟨c :: t, st, stk⟩ : Dec).more = (c != 93 && c != 125) := by
+  simp [Dec.more, skipSpace_cons c t h]
 
 end U.GoJson
